@@ -56,6 +56,12 @@ type IterVal struct {
 type State struct {
 	heap  map[string]*Term
 	epoch string
+	mix   []epochPart // non-empty: this state is the join of states from different havoc epochs
+}
+
+type epochPart struct {
+	reach *Term
+	st    *State
 }
 
 func (s *State) clone() *State {
@@ -63,7 +69,7 @@ func (s *State) clone() *State {
 	for k, v := range s.heap {
 		h[k] = v
 	}
-	return &State{heap: h, epoch: s.epoch}
+	return &State{heap: h, epoch: s.epoch, mix: s.mix}
 }
 
 type Exec struct {
@@ -86,6 +92,9 @@ type Exec struct {
 	ghostSeen map[*ssa.Range]string
 	floatOps  [][2]*Term
 	mapTypes  map[string]*types.Map
+	funcVals  map[string]Value
+	scanState *State
+	funcRefs  map[Value]*Term
 	refComps  map[string]bool
 	assertN   int
 	assertsHit map[string]bool
@@ -136,6 +145,23 @@ func (ex *Exec) comp(st *State, name string, sort Sort) *Term {
 	}
 	ex.compSorts[name] = sort
 	ex.vc.noteSort(sort)
+	if len(st.mix) > 0 {
+		// join of different epochs: the component is the guarded choice of the parts' components
+		var acc *Term
+		for i := len(st.mix) - 1; i >= 0; i-- {
+			v := ex.comp(st.mix[i].st, name, sort)
+			if acc == nil {
+				acc = v
+			} else {
+				acc = Ite(st.mix[i].reach, v, acc)
+			}
+		}
+		if len(acc.Args) > 0 && ex.vc.quantDepth == 0 {
+			acc = ex.vc.Def(name, acc)
+		}
+		st.heap[name] = acc
+		return acc
+	}
 	sym := name + "@" + st.epoch
 	isNew := !ex.vc.declared[sym]
 	ex.vc.declare(sym, fmt.Sprintf("(declare-const %s %s)", sym, sort))
@@ -168,7 +194,7 @@ func (ex *Exec) heapTyping(st *State, name string, c *Term) {
 		return
 	}
 	ex.vc.usesQ = true
-	ex.vc.lines = append(ex.vc.lines, "(assert "+f.String()+")")
+	ex.vc.lines = append(ex.vc.lines, "(assert "+f.String()+") ;@heaptyping")
 }
 
 func (ex *Exec) markRef(name string, t types.Type) {
@@ -193,8 +219,12 @@ func (ex *Exec) mapWFGlobal(st *State, mvName string) {
 	m := Sym("m!q", SInt)
 	k := Sym("k!q", ks)
 	f := Forall([]*Term{m, k}, Implies(Not(Select(Select(dom, m), k)), Eq(Select(Select(val, m), k), ex.vc.Zero(mt.Elem()))))
+	f.Pats = [][]*Term{{Select(Select(val, m), k)}}
 	ex.vc.usesQ = true
-	ex.vc.lines = append(ex.vc.lines, "(assert "+f.String()+")")
+	ex.vc.lines = append(ex.vc.lines, "(assert "+f.String()+") ;@mapwf")
+	// the nil map is empty
+	fn := Forall([]*Term{k}, Not(Select(Select(dom, IntLit(0)), k)))
+	ex.vc.lines = append(ex.vc.lines, "(assert "+fn.String()+") ;@mapwf")
 }
 
 func (ex *Exec) setComp(st *State, name string, v *Term) {
@@ -207,6 +237,7 @@ func (ex *Exec) setComp(st *State, name string, v *Term) {
 func (ex *Exec) newEpoch(st *State) {
 	st.heap = map[string]*Term{}
 	st.epoch = ex.vc.fresh("e")
+	st.mix = nil
 }
 
 // ---- component names -------------------------------------------------------------------
@@ -281,9 +312,9 @@ func (ex *Exec) loadAddr(st *State, a *Addr) *Term {
 	case 0:
 		v = base
 	case 1:
-		v = Select(base, a.idx[0])
+		v = ex.vc.SelectThrough(base, a.idx[0])
 	case 2:
-		v = Select(Select(base, a.idx[0]), a.idx[1])
+		v = ex.vc.SelectThrough(ex.vc.SelectThrough(base, a.idx[0]), a.idx[1])
 	}
 	for _, pe := range a.path {
 		f := pe.structT.Field(pe.field)
@@ -380,10 +411,40 @@ func (ex *Exec) load(st *State, p Value, elem types.Type) Value {
 	panic(unsupported(fmt.Sprintf("load through %T", p)))
 }
 
+// funcRefOf gives a function value (closure or function) a first-order identity so it can be stored in memory.
+func (ex *Exec) funcRefOf(v Value) *Term {
+	if ex.funcVals == nil {
+		ex.funcVals = map[string]Value{}
+		ex.funcRefs = map[Value]*Term{}
+	}
+	if fv, ok := v.(*FuncVal); ok {
+		for k, old := range ex.funcVals {
+			if o, ok := old.(*FuncVal); ok && o.fn == fv.fn {
+				return Sym(k, SInt)
+			}
+		}
+	}
+	if t, ok := ex.funcRefs[v]; ok {
+		return t
+	}
+	ex.vc.nfresh++
+	name := fmt.Sprintf("funcval!%d", ex.vc.nfresh)
+	ex.vc.decls = append(ex.vc.decls, fmt.Sprintf("(declare-const %s Int)", name), fmt.Sprintf("(assert (> %s 0))", name))
+	t := Sym(name, SInt)
+	ex.funcVals[name] = v
+	ex.funcRefs[v] = t
+	return t
+}
+
 func (ex *Exec) store(st *State, p Value, elem types.Type, v Value) {
 	vt, ok := v.(*Term)
 	if !ok {
-		panic(unsupported(fmt.Sprintf("storing a non-first-order value (%T) of type %s into memory", v, elem)))
+		switch v.(type) {
+		case *Closure, *FuncVal:
+			vt = ex.funcRefOf(v)
+		default:
+			panic(unsupported(fmt.Sprintf("storing a non-first-order value (%T) of type %s into memory", v, elem)))
+		}
 	}
 	switch a := p.(type) {
 	case *Addr:
@@ -711,11 +772,26 @@ func (ex *Exec) runBody(fr *frame, st0 *State, reach0 *Term) []*exit {
 					ex.vc.Oblige(&Obligation{Name: fmt.Sprintf("%s/inv-entry#%d", lname, i), Kind: "inv-entry", Tags: inv.Tags, Guard: reach, Goal: g, Func: relName(fn), Pos: fmt.Sprintf("%s:%d", inv.File, inv.Line), Note: inv.Text})
 				}
 			}
+			// built-in invariant of range-over-slice loops: the hidden index is >= -1
+			for _, phi := range phis {
+				if phi.Comment == "rangeindex" {
+					if ev, ok := entryEnv[phi].(*Term); ok {
+						ex.vc.Oblige(&Obligation{Name: fmt.Sprintf("%s/inv-auto-entry:%s", lname, phi.Name()), Kind: "inv-entry", Tags: ex.contractTags(), Guard: reach, Goal: ex.vc.Cmp(">=", ev, ex.vc.IntConst(-1), phi.Type()), Func: relName(fn), Note: "range index >= -1"})
+					}
+				}
+			}
 			// havoc
-			mods := ex.loopMods(fr, fn, body)
+			mods := ex.loopMods(fr, fn, body, st)
 			ex.havocMods(fr, st, reach, mods, entrySt, lc, b)
 			for _, phi := range phis {
 				fr.env[phi] = ex.freshValueOfType(st, reach, fn.Name()+"."+phi.Name()+"."+phi.Comment, phi.Type())
+			}
+			for _, phi := range phis {
+				if phi.Comment == "rangeindex" {
+					if ev, ok := fr.env[phi].(*Term); ok {
+						ex.vc.Assume(reach, ex.vc.Cmp(">=", ev, ex.vc.IntConst(-1), phi.Type()))
+					}
+				}
 			}
 			// assume invariants
 			if lc != nil {
@@ -815,6 +891,13 @@ func (ex *Exec) runBody(fr *frame, st0 *State, reach0 *Term) []*exit {
 				for phi, v := range newv {
 					fr.env[phi] = v
 				}
+				for phi, v := range newv {
+					if p, ok := phi.(*ssa.Phi); ok && p.Comment == "rangeindex" {
+						if ev, ok := v.(*Term); ok {
+							ex.vc.Oblige(&Obligation{Name: fmt.Sprintf("%s/inv-auto-step:%s@b%d", lname, p.Name(), b.Index), Kind: "inv-step", Tags: ex.contractTags(), Guard: r, Goal: ex.vc.Cmp(">=", ev, ex.vc.IntConst(-1), p.Type()), Func: relName(fn), Note: "range index >= -1"})
+						}
+					}
+				}
 				if li.lc != nil {
 					for i, inv := range li.lc.Invariants {
 						g := ex.evalClauseAt(fr, inv, cur.st, r, s, li.lc)
@@ -884,7 +967,7 @@ func (ex *Exec) checkAnchor(fn *ssa.Function, b *ssa.BasicBlock, lc *LoopContrac
 }
 
 func (ex *Exec) mergeStates(first *State, get func(i int) (*Term, *State), n int) *State {
-	res := &State{heap: map[string]*Term{}, epoch: first.epoch}
+	res := &State{heap: map[string]*Term{}, epoch: first.epoch, mix: first.mix}
 	keys := map[string]bool{}
 	sameEpoch := true
 	for i := 0; i < n; i++ {
@@ -897,8 +980,13 @@ func (ex *Exec) mergeStates(first *State, get func(i int) (*Term, *State), n int
 		}
 	}
 	if !sameEpoch {
-		// different havoc epochs on the branches: start a new epoch, define merged comps for known keys
+		// different havoc epochs on the branches: components not yet touched are resolved lazily (see comp)
 		res.epoch = ex.vc.fresh("e")
+		res.mix = nil
+		for i := 0; i < n; i++ {
+			r, s := get(i)
+			res.mix = append(res.mix, epochPart{r, s.clone()})
+		}
 	}
 	for _, k := range sortedKeys(keys) {
 		sortK := ex.compSorts[k]
@@ -999,10 +1087,10 @@ func (ex *Exec) term(fr *frame, v ssa.Value) *Term {
 	t, ok := o.(*Term)
 	if !ok {
 		if _, isF := o.(*FuncVal); isF {
-			return IntLit(1) // non-nil function reference
+			return ex.funcRefOf(o)
 		}
 		if _, isC := o.(*Closure); isC {
-			return IntLit(1)
+			return ex.funcRefOf(o)
 		}
 		panic(unsupported(fmt.Sprintf("operand %s of type %s is %T, not a first-order term (in %s)", v.Name(), v.Type(), o, fr.fn)))
 	}
